@@ -34,6 +34,17 @@ Theorem c07_combinations_spec (nr : near) N k c :
 Proof. intros S R Hk. exact (cut_combos_spec nr N S R k c Hk). Qed.
 Print Assumptions c07_combinations_spec.
 
+(** The generators (what the permutation stage writes) and the element masks (what the coset projector and the sum rules keep)
+    are separate code; they describe the same set: an increasing in-range tuple is listed <-> the mask keeps its atom tuple.
+    Every relation, N and order.  Instance with both sides: MaskCombos.mask_combos_instance. *)
+From SymfcV Require MaskCombos.
+Theorem c07_mask_agrees_with_combinations (nr : near) N k c :
+  (forall i j, nearb nr i j = nearb nr j i) -> (forall i, i < N -> nearb nr i i = true) ->
+  1 <= k -> length c = k -> increasing c -> in_range3 N c ->
+  (In c (cut_combos nr N k) <-> atoms_mutually_near nr (map (fun p => p / 3) c) = true).
+Proof. intros S R. exact (MaskCombos.mask_agrees_with_combos nr N S R k c). Qed.
+Print Assumptions c07_mask_agrees_with_combinations.
+
 (** enlarging the cutoff never removes a combination ... *)
 Theorem c07_monotone (nr nr' : near) N k c : 1 <= k ->
   (forall i j, nearb nr i j = nearb nr j i) -> (forall i, i < N -> nearb nr i i = true) ->
